@@ -10,6 +10,7 @@ import Pygom.OpsSens
 import Pygom.OpsLoss
 import Pygom.OpsCanary
 import Pygom.OpsEst
+import Pygom.OpsSeed
 
 namespace Pygom
 open Lean (Json)
@@ -23,6 +24,7 @@ def handlers : List (String → Json → Option (Except String Json)) :=
   , handleLoss
   , handleCanary
   , handleEst
+  , handleSeed
   ]
 
 def handle (j : Json) : Json :=
